@@ -12,7 +12,7 @@ from .c06 import veq, as_z, _real, KINDS
 
 MANIFEST_ENTRY = {
     "category": "proof",
-    "text": "__lt__ of every data kind is executed symbolically and proved equal to the stated order (numeric across int/decimal, code-point lexicographic strings, FALSE<TRUE, chronological dates, lexicographic lists); the derived operators and compare/less/less_equals/greater/greater_equals are proved consistent with it; the order is proved a strict total order (z3 lemmas); sorted enumeration of sets/map keys is wired to sorted(); sorted() itself (insertion sort) is proved an ordered, stable permutation for lists up to length 4/5 (symbolic-bounded); min/max (Checkerlang code) by bounded enumeration",
+    "text": "__lt__ of every data kind is executed symbolically and proved equal to the stated order (numeric across int/decimal, code-point lexicographic strings, FALSE<TRUE, chronological dates, lexicographic lists); the derived operators and compare/less/less_equals/greater/greater_equals are proved consistent with it; the order is proved a strict total order (z3 lemmas); sorted enumeration of sets/map keys is wired to sorted(); sorted() itself (insertion sort) is proved an ordered, stable permutation for lists up to length 4/5 (symbolic-bounded); min/max (Checkerlang code) by bounded enumeration; min and max of core.ckl on the module's real AST for lists of <= 3 symbolic ints and the two-argument form, with and without key functions: the first element whose key no other key beats (symbolic-bounded)",
     "note": "functools.total_ordering and reflected operators modelled after CPython 3.11; host sorted() assumed ascending and stable for a strict weak order; list comparison: spine <= 2 (symbolic-bounded); sorted(): length bound stated",
     "technique": "deductive verification: pyvc VCs from the real AST + z3; symbolic-bounded unrolling for sorted(); bounded runtime contracts for min/max",
 }
